@@ -96,6 +96,7 @@ type c07Cfg struct {
 	Execs   []string `json:"execs"`            // execution models, one client thread each
 	Inside  string   `json:"inside,omitempty"` // update kind triggered from inside rule "a" of the first execution (no updater thread)
 	After   bool     `json:"after,omitempty"`  // the executions start only after the updater has finished
+	Serial  bool     `json:"serial,omitempty"` // one client thread issues the executions one after the other (instances are reused)
 	Auto    bool     `json:"auto,omitempty"`   // racy access sites become scheduling points (iterated to a fix-point)
 }
 
@@ -188,9 +189,17 @@ func c07Scenario(cfg c07Cfg) *hx.Scenario {
 					vsched.Go(updater)
 				}
 			}
-			for j := range cfg.Execs {
-				j := j
-				vsched.Go(func() { client(j) })
+			if cfg.Serial {
+				vsched.Go(func() {
+					for j := range cfg.Execs {
+						client(j)
+					}
+				})
+			} else {
+				for j := range cfg.Execs {
+					j := j
+					vsched.Go(func() { client(j) })
+				}
 			}
 			vsched.WaitOthersDone()
 		},
@@ -337,6 +346,14 @@ func c07Configs(thorough bool) (cfgs []c07Cfg, bounds []int) {
 				bounds = append(bounds, 1)
 			}
 		}
+		// one client issuing two executions in a row against one update: the second one may start after
+		// the update returned, on the instance that served the first one while the update was under way
+		if m == "sort" || m == "specified" || thorough {
+			for _, k := range kinds {
+				cfgs = append(cfgs, c07Cfg{Updates: []string{k}, Execs: []string{m, m}, Serial: true})
+				bounds = append(bounds, b)
+			}
+		}
 		// two updates in sequence against one executor
 		for _, ks := range [][]string{{"full", "incr"}, {"incr", "remove"}, {"remove", "full"}, {"remove", "incr"}, {"badfull", "incr"}, {"badfull", "remove"}} {
 			if !thorough && m != "sort" && m != "nsortmc" && m != "dag" {
@@ -364,7 +381,7 @@ func init() {
 		BudgetQuick: 170 * time.Second,
 		BudgetThor:  30 * time.Minute,
 		Kind:        "schedules",
-		Rule: "pool (1,2), version-tagged rule sets whose versions differ in tags and membership; updater thread performing 1-2 updates from {full, incremental, removal, a full update that does not compile (must fail and change nothing) followed by an incremental update / removal} against 1-2 executions in each of 10 pool execution paths {sort, concurrent, mix, inverse-mix, N-sort-M-conc, N-conc-M-sort, N-conc-M-conc, DAG (2 layers), selected, configured-model}, every schedule with <=2 (thorough 3) deviations from the default scheduler (delay bounding: a preemption, or running another thread than the lowest-numbered enabled one when the running thread blocks or ends); an update triggered from inside a running rule; executions started after the update returned (both instances). " +
+		Rule: "pool (1,2), version-tagged rule sets whose versions differ in tags and membership; updater thread performing 1-2 updates from {full, incremental, removal, a full update that does not compile (must fail and change nothing) followed by an incremental update / removal} against 1-2 executions in each of 10 pool execution paths {sort, concurrent, mix, inverse-mix, N-sort-M-conc, N-conc-M-sort, N-conc-M-conc, DAG (2 layers), selected, configured-model}, every schedule with <=2 (thorough 3) deviations from the default scheduler (delay bounding: a preemption, or running another thread than the lowest-numbered enabled one when the running thread blocks or ends); an update triggered from inside a running rule; executions started after the update returned (both instances); one client issuing two executions in a row while an update is under way (instance reuse). " +
 			"Oracle (regular-register history check on the global call/return log): each execution's result map equals the reference result of exactly ONE snapshot, that snapshot is not older than the last update that returned before the execution was called and not newer than the last update called before it returned; no panic, no deadlock",
 		Assume: []string{"sequentially consistent memory", "nothing is demanded about the relative order of two overlapping executions"},
 		Run: func(c *hx.Ctx) {
